@@ -984,6 +984,12 @@ func init() {
 			}
 			return args[1]
 		},
+		// verifClock(): the current instant WITHOUT letting time pass (time.Now()
+		// lets an arbitrary amount of time pass first): the value the last
+		// clock reading of the code under test returned, unless the thread blocked since.
+		"verifClock": func(th *Thread, fr *frame, fn *ssa.Function, args []Value) Value {
+			return th.p.timeValue(th.p.clock)
+		},
 		"verifYield": func(th *Thread, fr *frame, fn *ssa.Function, args []Value) Value {
 			th.schedPoint(nil, "yield")
 			return nil
